@@ -40,5 +40,12 @@ CHECKS = {
                  "(len(window) < current window) and whose rejecting path has no effect; lifecycle table: a window a non-clean loss keeps "
                  "must be re-sent by the resume path and drained by the clean-start purge.",
          "note": BASE_NOTE, "technique": "path-sensitive event pairing + guard entailment + lifecycle fact table (loss/resume/purge loops per registry)"},
+ "C08": {"text": "Retry discipline on every abstract path: each retry-timer target resolves and, per path, writes its request's stored bytes once "
+                 "and re-arms exactly its own timer for the same request; every entry into a timed window is sent and armed on the same path; DUP "
+                 "by constant propagation over calling contexts (0 on first sends, 1<<3 in timer and resume contexts; unconditional for PUBLISH, "
+                 "only under the protocol-3.1 test for SUBSCRIBE/UNSUBSCRIBE/PUBREL); no re-encoding or reassignment of content after "
+                 "registration; stored bytes written only in first-send/own-timer/resume contexts; delay derives from the request's interval "
+                 "object created with the configured initial timeout. The two timing clauses are NOT decided (numeric, random jitter).",
+         "note": BASE_NOTE + " Timing clauses (minimum gap, non-shrinking gaps) are outside the family.", "technique": "call-graph resolution + per-path event pairing + constant propagation of the DUP argument over calling contexts"},
 }
 NOT_APPLICABLE = {}
